@@ -119,7 +119,7 @@ def build_cases(rep, tier, rng):
                               lb=lb.tolist(), ub=ub.tolist(), script=sc))
             i += 1
     kinds = ["convex", "indef", "singular", "scaled_up", "wiggly", "scaled_down"]
-    for i in range(100 if tier == "quick" else 2500):
+    for i in range(70 if tier == "quick" else 2500):
         kind = kinds[i % len(kinds)]
         n = [2, 3, 5][(i // len(kinds)) % 3]
         prob = trsolve.random_problem(rng, n, kind)
@@ -129,7 +129,16 @@ def build_cases(rep, tier, rng):
             sv["use_incremental_objective"] = True
         cases.append(dict(mode="genuine", prob=prob, x0=feasible_start(rng, lb, ub), settings=sv, lb=lb.tolist(),
                           ub=ub.tolist(), script=None))
-    for i in range(40 if tier == "quick" else 400):
+    # monotone (exact) spectral line search with bounds / radius active on ill-conditioned problems
+    for i in range(24 if tier == "quick" else 400):
+        n = [3, 5][i % 2]
+        prob = trsolve.random_problem(rng, n, "convex")
+        x0 = [rng.uniform(-1, 1) for _ in range(n)]
+        lb = onp.array([v - rng.choice([0.0, 0.2, 0.5]) if rng.random() < 0.8 else -onp.inf for v in x0])
+        ub = onp.array([v + rng.choice([0.0, 0.2, 0.5]) if rng.random() < 0.8 else onp.inf for v in x0])
+        cases.append(dict(mode="genuine", prob=prob, x0=x0, lb=lb.tolist(), ub=ub.tolist(), script=None,
+                          settings=dict(spg_use_nonmonotone=False, tr_size=rng.choice([0.3, 2.0, 50.0]), max_trust_iters=30)))
+    for i in range(24 if tier == "quick" else 400):
         n = [2, 3, 4][i % 3]
         prob = trsolve.random_problem(rng, n, "convex")
         prob["c4"] = 0.0
@@ -166,7 +175,7 @@ def projection_traces(rep, tier, rng):
     rep.add_tlc(gen)
     inst = gen.payloads("BEH")
     rng.shuffle(inst)
-    inst = inst[:2000 if tier == "quick" else len(inst)]
+    inst = inst[:1200 if tier == "quick" else len(inst)]
     traces, cases = [], {}
     scales = [10.0 ** k for k in range(-6, 7)]
     for i, b in enumerate(inst):
@@ -262,6 +271,8 @@ def main(tier, replay=None):
 
     def on_fail(tid, l, clause):
         c = dict(ids[tid]); c["event"] = l; c["events"] = by_id[tid]["ev"]
+        if clause == "feasible":
+            c["ulp_level"] = by_id[tid]["ev"][l - 1].get("feasClass") == "ulp"
         rep.fail(clause, c)
     for t in traces:
         t.pop("n_scripted", None)
